@@ -45,7 +45,7 @@ RunOutput run_krylov(const Plan& plan, const RunOpts&)
     obs.general = family_is_general(spec.family);
     obs.in_solver = false;
     obs.skip_after_expand = true;
-    obs.max_restarts = (spec.scalar == S_LDOUBLE) ? 8 : 20;
+    obs.max_restarts = (spec.scalar == S_LDOUBLE) ? 8 : 15;
     obs.out = &out.viol;
     ctx.observer = &obs;
     current_ctx() = &ctx;
